@@ -208,6 +208,117 @@ theorem decode_wfEnvelope (o mm : Obj) (h : wfEnvelope (.obj o) = true) (hrep : 
       rw [(gl _).2]; exact hasKey_of_onlyKeys o _ ho _ (by decide)
     simp [classifyStdio, hrep, j1, hidk, j2, j3]
 
+/-! ## result shapes: what the encoders produce satisfies the MCP schema predicates of `Mcp.RpcSpec` -/
+
+theorem lookup_append (a b : Obj) (k : Text) :
+    lookup (a ++ b) k = (lookup a k).or (lookup b k) := by
+  induction a with
+  | nil => simp [lookup]
+  | cons kv rest ih =>
+    obtain ⟨k0, v0⟩ := kv
+    by_cases h : k0 = k <;> simp [lookup, h, ih]
+
+theorem wf_resourceContents (rc : ResourceContents) : wfResourceContents (encodeResourceContents rc) = true := by
+  cases rc with
+  | text uri mime text =>
+    by_cases hm : mime.isEmpty = true <;>
+      simp [encodeResourceContents, wfResourceContents, reqIs, optIs, optField, hm, lookup, hasKey, isStr]
+  | blob uri mime blob =>
+    by_cases hm : mime.isEmpty = true <;>
+      simp [encodeResourceContents, wfResourceContents, reqIs, optIs, optField, hm, lookup, hasKey, isStr]
+
+theorem wf_content (c : Content) (h : isEmbedded c = false) : wfContent (encodeContent c) = true := by
+  cases c with
+  | text s a => cases a <;> simp [encodeContent, wfContent, annField, encodeAnnotations, reqIs, optIs, lookup, isStr, isObj, tagText]
+  | image d m a => cases a <;> simp [encodeContent, wfContent, annField, encodeAnnotations, reqIs, optIs, lookup, isStr, isObj, tagImage]
+  | audio d m a => cases a <;> simp [encodeContent, wfContent, annField, encodeAnnotations, reqIs, optIs, lookup, isStr, isObj, tagAudio]
+  | embedded r a => simp [isEmbedded] at h
+
+theorem metaField_lookup (m : Obj) (k : Text) (hk : k ≠ t!"_meta") : lookup (metaField m) k = none := by
+  unfold metaField; split <;> simp [lookup, Ne.symm hk]
+
+theorem metaField_meta (m : Obj) : optIs (metaField m) t!"_meta" isObj = true := by
+  unfold metaField; split <;> simp [optIs, lookup, isObj]
+
+theorem wf_callResult (r : CallToolResult) (h : resultConforms r) : wfResult t!"tools/call" (encodeResult r) = true := by
+  obtain ⟨cs, hc, hall⟩ := h
+  have hl : (cs.map encodeContent).all wfContent = true := by
+    simp only [List.all_map, List.all_eq_true]
+    intro c hc; exact wf_content c (hall c hc)
+  unfold encodeResult wfResult
+  simp only [hc, sliceJson]
+  have m1 := metaField_meta r.metaMap
+  have m2 := metaField_lookup r.metaMap t!"content" (by decide)
+  have m3 := metaField_lookup r.metaMap t!"isError" (by decide)
+  cases hmm : lookup (metaField r.metaMap) t!"_meta" <;> cases hs : r.structured <;> cases he : r.isError <;>
+    simp_all [optIs, listOf, lookup_append, structuredField, optField, lookup, isBool]
+theorem wf_promptMessage (m : PromptMessage) (hr : roleOk m.role = true) (c : Content) (hc : m.content = some c)
+    (he : isEmbedded c = false) : wfPromptMessage (encodePromptMessage m) = true := by
+  have := wf_content c he
+  simp [roleOk] at hr
+  simp [encodePromptMessage, wfPromptMessage, reqIs, lookup, hc, encodeContentOpt, this, wfRole, hr]
+
+theorem wf_getPrompt (r : GetPromptResult) (h : promptConforms r) : wfResult t!"prompts/get" (encodeGetPrompt r) = true := by
+  obtain ⟨ms, hm, hall⟩ := h
+  have hl : (ms.map encodePromptMessage).all wfPromptMessage = true := by
+    simp only [List.all_map, List.all_eq_true]
+    intro m hmem
+    obtain ⟨hr, c, hc, he⟩ := hall m hmem
+    exact wf_promptMessage m hr c hc he
+  unfold encodeGetPrompt wfResult
+  simp only [hm, sliceJson]
+  have m2 := metaField_lookup r.metaMap t!"messages" (by decide)
+  have m3 := metaField_lookup r.metaMap t!"description" (by decide)
+  have m1 := metaField_meta r.metaMap
+  cases hmm : lookup (metaField r.metaMap) t!"_meta" <;> by_cases hd : r.description.isEmpty = true <;>
+    simp_all [optIs, listOf, lookup_append, optField, lookup, isStr]
+
+theorem wf_readResource (cs : List ResourceContents) : wfResult t!"resources/read" (encodeReadResource (some cs)) = true := by
+  have hl : (cs.map encodeResourceContents).all wfResourceContents = true := by
+    simp only [List.all_map, List.all_eq_true]; intro c _; exact wf_resourceContents c
+  simp_all [encodeReadResource, wfResult, sliceJson, optIs, listOf, lookup]
+
+theorem wf_tool (t : ToolDesc) (s : Obj) (hs : t.inputSchema = some (.obj s)) (ht : lookup s t!"type" = some (.str t!"object")) :
+    wfTool (encodeTool t) = true := by
+  unfold encodeTool wfTool
+  by_cases hd : t.description.isEmpty = true <;> cases ho : t.outputSchema <;> cases ha : t.annotations <;>
+    simp_all [reqIs, optIs, optField, lookup, isStr, isObj, wfInputSchema, isStrEq, encodeToolAnnotations]
+
+theorem wf_listTools (reg : Registry) (h : reg.Conforming) : wfResult t!"tools/list" (encodeListTools (reg.tools.map (·.desc))) = true := by
+  have hl : ((reg.tools.map (·.desc)).map encodeTool).all wfTool = true := by
+    simp only [List.all_map, List.all_eq_true]
+    intro t ht
+    obtain ⟨s, hs, hty⟩ := h.schema t ht
+    exact wf_tool t.desc s hs hty
+  simp_all [encodeListTools, wfResult, optIs, listOf, lookup]
+
+theorem wf_promptArg (a : PromptArg) : wfPromptArgument (encodePromptArg a) = true := by
+  by_cases hd : a.desc.isEmpty = true <;> cases hr : a.required <;>
+    simp_all [encodePromptArg, wfPromptArgument, reqIs, optIs, optField, lookup, isStr, isBool]
+
+theorem wf_prompt (p : PromptEntry) : wfPrompt (encodePrompt p) = true := by
+  have hl : (p.args.map encodePromptArg).all wfPromptArgument = true := by
+    simp only [List.all_map, List.all_eq_true]; intro a _; exact wf_promptArg a
+  by_cases hd : p.desc.isEmpty = true <;> by_cases ha : p.args.isEmpty = true <;>
+    simp_all [encodePrompt, wfPrompt, reqIs, optIs, optField, lookup, isStr]
+
+theorem wf_listPrompts (reg : Registry) : wfResult t!"prompts/list" (.obj [(t!"prompts", .arr (reg.prompts.map encodePrompt))]) = true := by
+  have hl : (reg.prompts.map encodePrompt).all wfPrompt = true := by
+    simp only [List.all_map, List.all_eq_true]; intro p _; exact wf_prompt p
+  simp_all [wfResult, optIs, listOf, lookup]
+
+theorem wf_resource (r : ResEntry) : wfResource (encodeResource r) = true := by
+  by_cases hd : r.desc.isEmpty = true <;> by_cases hm : r.mime.isEmpty = true <;> by_cases hs : r.size = 0 <;>
+    simp_all [encodeResource, wfResource, reqIs, optIs, optField, lookup, isStr]
+
+theorem wf_listResources (reg : Registry) : wfResult t!"resources/list" (.obj [(t!"resources", .arr (reg.resources.map encodeResource))]) = true := by
+  have hl : (reg.resources.map encodeResource).all wfResource = true := by
+    simp only [List.all_map, List.all_eq_true]; intro p _; exact wf_resource p
+  simp_all [wfResult, optIs, listOf, lookup]
+
+theorem wf_initResult (reg : Registry) (v : Text) : wfResult t!"initialize" (initResult reg v) = true := by
+  simp [initResult, encodeInit, wfResult, optIs, reqIs, lookup, isStr, isObj, wfImplementation, Mcp.Lifecycle.answerInit]
+
 /-! ## concrete instances (non-vacuity examples and counterexamples of the property files) -/
 
 def objectSchema : Json := .obj [(t!"type", .str t!"object")]
